@@ -52,14 +52,14 @@ type Result struct {
 }
 
 type rewriter struct {
-	fset  *token.FileSet
-	base  string
-	ctr   int
-	warns []string
-	info  *types.Info
-	opt   *Options
-	res   *Result
-	full  bool
+	fset    *token.FileSet
+	base    string
+	ctr     int
+	warns   []string
+	info    *types.Info
+	opt     *Options
+	res     *Result
+	full    bool
 	usedVFS bool
 }
 
